@@ -70,6 +70,22 @@ CLAIMS = {
          "Decides: ValidPath, NormalizePath and CreateName classify each name class (empty, '.', '..', with '/' or '\\', ordinary incl. dotted names) exactly as specified; '..' is counted by ValidPath only on the edge n == i and the counter is what is returned; WalkName succeeds only on an edge implying 0 <= ValidPath(names) <= depth(dir) with depth = Count(dir[:len-1], '/') and returns path.Join(dir, path.Join(names...)); CreateName returns path.Join(dir, name); slice/index obligations hold (NormalizePath's cursor via an inferred inductive invariant).",
          "Not decided: equality with stepwise resolution / idempotence as functional statements over all strings; class-invariance of the predicates outside the alphabet is argued, not checked. Trusted: path.Join, strings.Count.",
          "§4 C16"),
+ "C17": ("SSA dominance/edge rules, affine equalities with load numbering, linear-fact entailment (incl. memory-merge and phi case splits) over readdir.go, openLocked/Create and openDir.Next",
+         "Decides: the offset test dominates every effect of Readdir.Read and a mismatch returns (0, error); entries are appended whole, only on an edge implying len+len(entry) <= cap, into p[:0:len(p)]; the entry that does not fit is saved and the iterator is consulted only when nothing is pending (pending entry cleared when consumed); rd.offset advances by exactly n = len(output); io.EOF mapped to nil; 0 <= n <= len(p); mkNext1/NewFixedReaddir index obligations and the empty-batch rule; directories get a Readdir over OpenDir on open and create and are never opened as files; client Next reads at its running offset, advances it by n and decodes exactly buf[:n] until EOF.",
+         "Not decided: end-to-end equality of listings across msize values; entries larger than the count (precondition).",
+         "§4 C17"),
+ "C18": ("SSA bounds obligations over package ramfs discharged by linear-fact entailment with inferred inductive loop invariants; typestate lock pairing and field-granular lockset analysis (written-path refinement) on FileEnt; return-range summaries",
+         "Decides: every slice/index/make obligation in ramfs (arbitrary 64-bit offsets incl. negative int64) is entailed by guards/invariants; FileEnt.Read/Write return 0 <= n <= len(p); FileEnt lock pairing on every path; every access to FileEnt.nref/children/Info/Data paths that are written after construction happens under the node lock, except the 11 sites listed as known findings (data races D11, reproduced with -race) and the unsynchronised qid-path counter; no explicit panic.",
+         "Not decided: model equivalence (bytes read = bytes written, listings, walk resolution, nref = links); races beyond the lockset discipline.",
+         "§4 C18"),
+ "C19": ("table extraction from edge conditions (oflags), data-dependence rules (dirFromInfo accessor map), pass-through/argument identity rules, sentinel-guard dominance rules, path class of host paths",
+         "Decides: oflags maps mode&3 to O_RDONLY/O_WRONLY/O_RDWR/O_RDONLY and adds O_TRUNC exactly on OTRUNC (os constants of the build configuration); dirFromInfo fills each Dir field from the matching FileInfo accessor and sets DMDIR/QTDIR exactly on the IsDir edge; Read/Write are ReadAt/WriteAt on the entry's own file with the caller's buffer and offset; Open/Create/Remove/WStat act on the entry's own host path with the requested values, WStat only on non-sentinel fields; Create passes perm&0777 and oflags(mode)|O_CREATE, mkdir on DMDIR.",
+         "Not decided: resulting host state (OS semantics), chown/user lookup, listing order.",
+         "§4 C19, §3 E14"),
+ "C20": ("SSA provenance rules on cfilesys.go: own-fid chains without pointer dereference, fresh-fid provenance, allocator who-writes rule, edge conditions of cEnt.Walk's success return",
+         "Decides: every Session call of the client layer passes the receiver's own fid/afid or a fid just taken from the allocator; forwarders call the same-named Session method; newFid is the only writer of nextfid besides the constructor and returns the incremented value; cEnt.Walk sends the normalised names to a fresh fid, compares len(qids) with the length of the names actually sent, and returns the new entry only on the edge where they are equal and the call succeeded; Create/Open return files bound to the entry's own fid.",
+         "Not decided: server-side count of bound fids over histories; concurrent use of the non-atomic allocator.",
+         "§4 C20, §3 E15"),
 }
 
 REASON_PENDING = "static check not built yet in this round (planned per DESIGN.md §4); not claimed until its rules are in place"
